@@ -1479,30 +1479,50 @@ func raceExcerpt(s string) string {
 //
 // The locking model (Crem/Model/Locking.lean) describes handlers that run one at a time under ONE lock and share state
 // with nothing else.  What that assumes about the code is extracted from /repo's source with go/ast on every run and
-// compared with the driver's expected answers (Driver/Engine.lean, `facts …` lines), so that a change of the code's
-// shape is a (structural) failure of the check:
+// compared with the driver's expected answers (Driver/Engine.lean, `facts …` lines).  The facts are RULES about the code,
+// and what they print are the VIOLATIONS of the rule (plus the accepted exceptions), not a fingerprint of the code: a
+// renamed mutex, a lock taken through a wrapper method, a new field that is always accessed under the request lock or a
+// statement on locals in front of the lock leave every answer as it is; a change that breaks a rule changes an answer.
 //
-//   facts servehttp        rest.MuxImpl.ServeHTTP starts with <mutex>.Lock(); defer <same>.Unlock(); no `go` statement in
-//                          the packages whose code runs inside a handler
+//   facts servehttp        rest.MuxImpl.ServeHTTP handles the request inside ONE critical section of a mutex field of the
+//                          multiplexer (the REQUEST LOCK): after a prefix of statements that touch neither the receiver
+//                          nor a package-level variable / function of its package and contain no go / defer statement,
+//                          EITHER <recv>.<mutex>.Lock() directly followed by defer <recv>.<same>.Unlock() (the rest of
+//                          the body runs under the lock), OR one call <recv>.M(func literal) of a lock wrapper M (Lock;
+//                          defer Unlock; run the parameter) followed by nothing that touches the receiver, package-level
+//                          state or a local variable that the closure shares; and no `go` statement in the packages
+//                          whose code runs inside a handler
 //   facts servehttp-unique exactly one ServeHTTP among the four multiplexer types (nothing shadows the locking one: the
 //                          harness serves *engineApi.Mux, production serves `Handler: mi`)
-//   facts lock-sites       every Lock/Unlock/RLock/RUnlock call of the server packages
+//   facts lock-sites       the NON-CANONICAL Lock/Unlock/RLock/RUnlock/TryLock sites of the server packages (expected:
+//                          none).  Canonical = <recv>.<mutex field>.Lock() directly followed by defer <recv>.<same>.Unlock()
+//                          in the top-level statements of a method: the lock is held from there to the method's return,
+//                          which is exactly what the lockset walk below models (ServeHTTP's pair, the pair of a lock
+//                          wrapper, a whole-function critical section such as admin.Mux.changeStatus).  Anything else — a
+//                          non-deferred Unlock, an unlock/re-lock in the middle of a handler, a shared (R) lock, a lock
+//                          taken in a nested block or through a method value, a lock that is no field of the receiver —
+//                          is printed
 //   facts go-statements    every `go` statement of the server packages (three known sites)
 //   facts startup          what runs before the first `go` statement of RestServer.Start, and that the engine's initial
 //                          scenario / solution are loaded before the server is started
-//   facts handlers         every AddHandler(pattern, X.method): is X the multiplexer it is registered with
-//   facts locksets         lockset analysis (as Eraser's, over a syntactic call graph): every field of the multiplexers
+//   facts handlers         every AddHandler(pattern, X.method) whose X is NOT the multiplexer it is registered with
+//                          (foreign=…) or whose method the extraction cannot follow (unresolved=…)
+//   facts locksets         lockset analysis (as Eraser's, over a syntactic call graph) of every field of the multiplexers
 //                          that is written after start-up — by a handler, or by what RestServer.Start runs from its
-//                          first `go` statement on — with the locks held at ALL its accesses reachable after start-up
-//   facts post-start       the accesses to those fields made from outside ServeHTTP after start-up
+//                          first `go` statement on.  Printed are the fields that are NOT consistently locked: `F@-` if an
+//                          access of F reachable after start-up holds no lock at all, `F@mixed` if every access holds some
+//                          lock but no lock is common to all of them.  A field whose accesses share a lock is not printed
+//                          (whatever the lock is called)
+//   facts post-start       the accesses to the fields of `facts locksets` made from outside ServeHTTP after start-up
+//                          (`@-`: nothing held, `@locked`: some lock held)
 //
-// Own handlers start with the multiplexer's request lock held (when `facts servehttp` holds); a handler registered with
+// Own handlers start with the multiplexer's request lock held (the one `facts servehttp` found); a handler registered with
 // ANOTHER multiplexer starts with nothing held (the other multiplexer's request lock is not this one's).  Limits of the
 // extraction (syntactic, no type checker): locks are told apart by field name, not by instance; Lock/Unlock are tracked
-// in the top-level statements of a function body only (a lock taken in a nested block counts as not held); calls are
-// followed through methods of the five struct types and functions of their packages, not through interfaces other than
-// rest.Mux (= *engineApi.Mux as the API multiplexer, which RestServer.SetScenario's type assertion and cmd/cremengine's
-// buildApiMux show) nor through values of function type other than literal closures.
+// in the top-level statements of a function body only (a lock taken in a nested block counts as not held, and is a
+// non-canonical site); calls are followed through methods of the five struct types and functions of their packages, not
+// through interfaces other than rest.Mux (= *engineApi.Mux as the API multiplexer, which RestServer.SetScenario's type
+// assertion and cmd/cremengine's buildApiMux show) nor through values of function type other than literal closures.
 
 type fPkg struct {
 	dir, short string
@@ -1796,6 +1816,39 @@ func (w *fWalker) lockCall(e ast.Expr, env map[string]*fType) (field, op string,
 	return inner.Sel.Name, se.Sel.Name, true
 }
 
+// lockSel: the selector <var>.<mutex field>.<op> of a call that lockCall recognises.
+func lockSel(e ast.Expr) *ast.SelectorExpr {
+	if ce, ok := e.(*ast.CallExpr); ok {
+		if se, ok := ce.Fun.(*ast.SelectorExpr); ok {
+			return se
+		}
+	}
+	return nil
+}
+
+// criticalPair: stmts[i] is <var>.<L>.Lock() and stmts[i+1] is defer <same var>.<L>.Unlock() for a mutex field L of a
+// variable of the environment — L is held from there until the function returns.  The two selectors come with it.
+func (w *fWalker) criticalPair(stmts []ast.Stmt, i int, env map[string]*fType) (string, *ast.SelectorExpr, *ast.SelectorExpr, bool) {
+	if i < 0 || i+1 >= len(stmts) {
+		return "", nil, nil, false
+	}
+	s0, ok0 := stmts[i].(*ast.ExprStmt)
+	s1, ok1 := stmts[i+1].(*ast.DeferStmt)
+	if !ok0 || !ok1 {
+		return "", nil, nil, false
+	}
+	l0, op0, a := w.lockCall(s0.X, env)
+	l1, op1, b := w.lockCall(s1.Call, env)
+	if !a || !b || op0 != "Lock" || op1 != "Unlock" || l0 != l1 {
+		return "", nil, nil, false
+	}
+	sel0, sel1 := lockSel(s0.X), lockSel(s1.Call)
+	if sel0 == nil || sel1 == nil || fExprText(sel0.X) != fExprText(sel1.X) {
+		return "", nil, nil, false
+	}
+	return l0, sel0, sel1, true
+}
+
 // lockWrapper: a method whose body is <recv>.<L>.Lock(); defer <recv>.<L>.Unlock(); <its one function parameter>() —
 // the closure handed to it runs under L.
 func (w *fWalker) lockWrapper(t *fType, fd *ast.FuncDecl) (string, bool) {
@@ -1806,15 +1859,9 @@ func (w *fWalker) lockWrapper(t *fType, fd *ast.FuncDecl) (string, bool) {
 		return "", false
 	}
 	env := map[string]*fType{recvName(fd): t}
-	s0, ok0 := fd.Body.List[0].(*ast.ExprStmt)
-	s1, ok1 := fd.Body.List[1].(*ast.DeferStmt)
+	l0, _, _, ok := w.criticalPair(fd.Body.List, 0, env)
 	s2, ok2 := fd.Body.List[2].(*ast.ExprStmt)
-	if !ok0 || !ok1 || !ok2 {
-		return "", false
-	}
-	l0, op0, a := w.lockCall(s0.X, env)
-	l1, op1, b := w.lockCall(s1.Call, env)
-	if !a || !b || op0 != "Lock" || op1 != "Unlock" || l0 != l1 {
+	if !ok || !ok2 {
 		return "", false
 	}
 	ce, isCall := s2.X.(*ast.CallExpr)
@@ -1825,6 +1872,180 @@ func (w *fWalker) lockWrapper(t *fType, fd *ast.FuncDecl) (string, bool) {
 		return "", false
 	}
 	return l0, true
+}
+
+// wrapperCall: <var>.M(func literal) for a lock wrapper M of the variable's type: the lock and the closure that runs under it.
+func (w *fWalker) wrapperCall(e ast.Expr, env map[string]*fType) (string, *ast.FuncLit) {
+	call, ok := e.(*ast.CallExpr)
+	if !ok || len(call.Args) != 1 {
+		return "", nil
+	}
+	f, ok := call.Fun.(*ast.SelectorExpr)
+	if !ok {
+		return "", nil
+	}
+	v, isIdent := f.X.(*ast.Ident)
+	if !isIdent || env[v.Name] == nil {
+		return "", nil
+	}
+	owner, callee := w.u.method(env[v.Name], f.Sel.Name)
+	if callee == nil {
+		return "", nil
+	}
+	l, isWrapper := w.lockWrapper(owner, callee)
+	lit, isLit := call.Args[0].(*ast.FuncLit)
+	if !isWrapper || !isLit {
+		return "", nil
+	}
+	return l, lit
+}
+
+// globals: the package-level variables and functions of a package (what a statement can reach shared state through
+// without naming a receiver).
+func (p *fPkg) globals() map[string]bool {
+	out := map[string]bool{}
+	for _, f := range p.files {
+		for _, decl := range f.Decls {
+			switch d := decl.(type) {
+			case *ast.FuncDecl:
+				if d.Recv == nil && d.Name.Name != "_" {
+					out[d.Name.Name] = true
+				}
+			case *ast.GenDecl:
+				if d.Tok != token.VAR {
+					continue
+				}
+				for _, sp := range d.Specs {
+					if vs, ok := sp.(*ast.ValueSpec); ok {
+						for _, n := range vs.Names {
+							if n.Name != "_" {
+								out[n.Name] = true
+							}
+						}
+					}
+				}
+			}
+		}
+	}
+	return out
+}
+
+// fMentions: does the node use one of the names as an identifier (not as the selected name of a selector expression), start
+// a goroutine, or defer something (a deferred call runs when the function returns: after a deferred Unlock placed later)?
+func fMentions(n ast.Node, names map[string]bool) bool {
+	found := false
+	var visit func(ast.Node) bool
+	visit = func(n ast.Node) bool {
+		if found || n == nil {
+			return false
+		}
+		switch x := n.(type) {
+		case *ast.GoStmt, *ast.DeferStmt:
+			found = true
+			return false
+		case *ast.SelectorExpr:
+			ast.Inspect(x.X, visit)
+			return false
+		case *ast.Ident:
+			if names[x.Name] {
+				found = true
+			}
+		}
+		return true
+	}
+	ast.Inspect(n, visit)
+	return found
+}
+
+// fDeclared: the local variables a statement declares (`:=`, `var`), at any depth.
+func fDeclared(n ast.Node, into map[string]bool) {
+	ast.Inspect(n, func(n ast.Node) bool {
+		switch x := n.(type) {
+		case *ast.AssignStmt:
+			if x.Tok == token.DEFINE {
+				for _, l := range x.Lhs {
+					if id, ok := l.(*ast.Ident); ok && id.Name != "_" {
+						into[id.Name] = true
+					}
+				}
+			}
+		case *ast.ValueSpec:
+			for _, id := range x.Names {
+				if id.Name != "_" {
+					into[id.Name] = true
+				}
+			}
+		}
+		return true
+	})
+}
+
+// fServeLock: how ServeHTTP takes the request lock (see `facts servehttp`).
+type fServeLock struct {
+	lock           string // the mutex field; "" unless both conditions hold
+	lockFirst      bool   // the first statement that touches the receiver (or package-level state) acquires a mutex field of it
+	unlockDeferred bool   // … which is released by defer when ServeHTTP returns, nothing touching the receiver outside it
+	form           string // pair | wrapper
+	why            string // what is wrong, if something is
+}
+
+func (w *fWalker) serveLock(t *fType, fd *ast.FuncDecl) (r fServeLock) {
+	if fd == nil || fd.Body == nil || recvName(fd) == "" {
+		r.why = "no ServeHTTP with a named receiver and a body"
+		return r
+	}
+	recv := recvName(fd)
+	env := map[string]*fType{recv: t}
+	names := t.pkg.globals()
+	names[recv] = true
+	stmts := fd.Body.List
+	i := 0
+	for i < len(stmts) && !fMentions(stmts[i], names) {
+		i++
+	}
+	if i == len(stmts) {
+		r.why = "no statement of ServeHTTP takes a lock"
+		return r
+	}
+	if l, _, _, ok := w.criticalPair(stmts, i, env); ok {
+		r.lock, r.lockFirst, r.unlockDeferred, r.form = l, true, true, "pair"
+		return r
+	}
+	if es, ok := stmts[i].(*ast.ExprStmt); ok {
+		if _, op, ok := w.lockCall(es.X, env); ok && op == "Lock" {
+			r.lockFirst = true
+			r.why = fmt.Sprintf("statement %d locks a mutex of the receiver, but the next statement is not `defer` unlocking the same mutex", i+1)
+			return r
+		}
+		if l, lit := w.wrapperCall(es.X, env); lit != nil {
+			r.lockFirst = true
+			// what follows the wrapper call runs with the lock released: it may touch neither the receiver nor package-level
+			// state, nor a local variable that the closure could have filled from them (a handler looked up under the
+			// lock and called after it)
+			carried := map[string]bool{}
+			for _, s := range stmts[:i] {
+				fDeclared(s, carried)
+			}
+			for v := range carried {
+				if !fMentions(lit.Body, map[string]bool{v: true}) {
+					delete(carried, v)
+				}
+			}
+			for v := range names {
+				carried[v] = true
+			}
+			for j := i + 1; j < len(stmts); j++ {
+				if fMentions(stmts[j], carried) {
+					r.why = fmt.Sprintf("statement %d runs after the lock wrapper has released the lock and touches the receiver, package-level state or a local variable shared with the closure (or defers)", j+1)
+					return r
+				}
+			}
+			r.lock, r.unlockDeferred, r.form = l, true, "wrapper"
+			return r
+		}
+	}
+	r.why = fmt.Sprintf("statement %d touches the receiver (or package-level state, or is a go / defer statement) and is neither <receiver>.<mutex field>.Lock() nor a call of a lock wrapper with a closure: something runs before the request lock is taken", i+1)
+	return r
 }
 
 func (w *fWalker) fnName(t *fType, fd *ast.FuncDecl, p *fPkg) string {
@@ -2021,11 +2242,9 @@ func (w *fWalker) walkCall(p *fPkg, file *ast.File, call *ast.CallExpr, env map[
 		// <var>.M(…)
 		if v, isIdent := f.X.(*ast.Ident); isIdent && env[v.Name] != nil {
 			if owner, callee := w.u.method(env[v.Name], f.Sel.Name); callee != nil {
-				if l, isWrapper := w.lockWrapper(owner, callee); isWrapper && len(call.Args) == 1 {
-					if lit, isLit := call.Args[0].(*ast.FuncLit); isLit {
-						w.walkBody(p, file, lit.Body.List, env, copyHeld(held, l), where, fn)
-						return false
-					}
+				if l, lit := w.wrapperCall(call, env); lit != nil {
+					w.walkBody(p, file, lit.Body.List, env, copyHeld(held, l), where, fn)
+					return false
 				}
 				// the receiver stays the variable's own type: methods of an embedded type see the fields they declare
 				w.walkFunc(owner, owner.pkg, callee, w.bind(callee, owner, call.Args, p, file, env), held, where)
@@ -2057,7 +2276,7 @@ func (w *fWalker) walkCall(p *fPkg, file *ast.File, call *ast.CallExpr, env map[
 	return true
 }
 
-// Fields with an empty lockset that are accepted, with the reason (they appear in the expected `facts locksets` answer as
+// Fields with an empty lockset that are accepted, with the reason (they are the expected `facts locksets` answer, as
 // `@-`; everything else with an empty lockset is a failure):
 //
 //	rest.MuxImpl.server — the http.Server of a multiplexer's life cycle, not state that requests share.  Written by
@@ -2092,21 +2311,33 @@ func suiteEngineFacts(c *Ctx) {
 		c.Nontrivial(name + "=" + res)
 	}
 
-	// ---- 1. rest.MuxImpl.ServeHTTP: first statement acquires a sync.Mutex field, second is `defer <same>.Unlock()`
+	// ---- 1. rest.MuxImpl.ServeHTTP handles the request inside one critical section of a mutex field (the request lock)
 	muxImpl := u.types["rest.MuxImpl"]
-	lockFirst, unlockDeferred := false, false
-	requestLock := ""
+	sl := fServeLock{why: "rest.MuxImpl not found"}
 	if muxImpl != nil {
-		if fd := muxImpl.methods["ServeHTTP"]; fd != nil && fd.Body != nil && len(fd.Body.List) >= 2 {
-			env := map[string]*fType{recvName(fd): muxImpl}
-			if es, ok := fd.Body.List[0].(*ast.ExprStmt); ok {
-				if fld, op, ok := w.lockCall(es.X, env); ok && op == "Lock" {
-					lockFirst = true
-					if ds, ok := fd.Body.List[1].(*ast.DeferStmt); ok {
-						if fld2, op2, ok := w.lockCall(ds.Call, env); ok && op2 == "Unlock" && fld2 == fld {
-							unlockDeferred = true
-							requestLock = fld
-						}
+		sl = w.serveLock(muxImpl, muxImpl.methods["ServeHTTP"])
+	}
+	lockFirst, unlockDeferred, requestLock := sl.lockFirst, sl.unlockDeferred, sl.lock
+	// the canonical lock sites: <recv>.<L>.Lock() directly followed by defer <recv>.<L>.Unlock() in the top-level statements
+	// of a method (L is held from there to the return: what walkBody models).  ServeHTTP's pair and the pair of a lock
+	// wrapper are of that shape.
+	canonical := map[*ast.SelectorExpr]bool{}
+	for _, d := range factsDirs {
+		p := u.pkgs[d[0]]
+		for _, f := range p.files {
+			for _, decl := range f.Decls {
+				fd, ok := decl.(*ast.FuncDecl)
+				if !ok || fd.Body == nil || fd.Recv == nil || len(fd.Recv.List) == 0 || recvName(fd) == "" {
+					continue
+				}
+				t := u.resolveType(p, f, fd.Recv.List[0].Type)
+				if t == nil {
+					continue
+				}
+				env := map[string]*fType{recvName(fd): t}
+				for i := range fd.Body.List {
+					if _, s0, s1, ok := w.criticalPair(fd.Body.List, i, env); ok {
+						canonical[s0], canonical[s1] = true, true
 					}
 				}
 			}
@@ -2150,14 +2381,18 @@ func suiteEngineFacts(c *Ctx) {
 						if se, ok := x.Call.Fun.(*ast.SelectorExpr); ok {
 							switch se.Sel.Name {
 							case "Lock", "Unlock", "RLock", "RUnlock", "TryLock", "TryRLock":
-								lockSites = append(lockSites, fn+":defer:"+fExprText(se.X)+"."+se.Sel.Name)
+								if !canonical[se] {
+									lockSites = append(lockSites, fn+":defer:"+fExprText(se.X)+"."+se.Sel.Name)
+								}
 								return false
 							}
 						}
 					case *ast.SelectorExpr:
 						switch x.Sel.Name {
 						case "Lock", "Unlock", "RLock", "RUnlock", "TryLock", "TryRLock":
-							lockSites = append(lockSites, fn+":"+fExprText(x.X)+"."+x.Sel.Name)
+							if !canonical[x] {
+								lockSites = append(lockSites, fn+":"+fExprText(x.X)+"."+x.Sel.Name)
+							}
 						case "TimeoutHandler", "AfterFunc", "WithTimeout", "WithDeadline", "WithCancel":
 							// library helpers that run (or abandon) work on another goroutine: a handler started through one
 							// of them can outlive the request lock although no `go` statement appears in crem's own source
@@ -2185,7 +2420,9 @@ func suiteEngineFacts(c *Ctx) {
 	c.Stat("facts: " + res)
 	c.Nontrivial(res)
 	if !lockFirst || !unlockDeferred {
-		c.Fail("C16:structural-tie", "engine:no-request-lock", "rest.MuxImpl.ServeHTTP does not start with <mutex field>.Lock() followed by defer <same>.Unlock(): the locking model (Crem/Model/Locking.lean) does not describe this code; requests are handled without mutual exclusion ("+res+")", []string{"facts servehttp"})
+		c.Fail("C16:structural-tie", "engine:no-request-lock", "rest.MuxImpl.ServeHTTP does not handle the request inside one critical section of a mutex field of the multiplexer (<receiver>.<mutex>.Lock() directly followed by defer <same>.Unlock(), or a lock wrapper called with a closure, with nothing that touches the receiver outside it): "+sl.why+". The locking model (Crem/Model/Locking.lean) does not describe this code; requests are handled without mutual exclusion ("+res+")", []string{"facts servehttp"})
+	} else {
+		c.Stat("facts: request lock taken by " + sl.form)
 	}
 	if len(handlerGo) > 0 {
 		c.Fail("C16:structural-tie", "engine:handler-starts-goroutine", "go statements in request-handling packages: "+strings.Join(handlerGo, ", "), []string{"facts servehttp"})
@@ -2389,14 +2626,36 @@ func suiteEngineFacts(c *Ctx) {
 		}
 		unlockedAt[f] = xs
 	}
+	// printed: the fields that are NOT consistently locked (`@-`: an access holds nothing, `@mixed`: no lock common to all
+	// accesses) and their accesses from outside ServeHTTP; a field whose accesses share a lock is not printed
 	var locksetFacts, postStart []string
+	bare := map[string]bool{}
+	for _, a := range w.out {
+		if live[a.field] && a.held == "-" {
+			bare[a.field] = true
+		}
+	}
+	nUnderRequestLock := 0
 	for f := range live {
-		locksetFacts = append(locksetFacts, f+"@"+heldKey(lockset[f]))
+		switch {
+		case len(lockset[f]) > 0:
+			if lockset[f][requestLock] {
+				nUnderRequestLock++
+			}
+		case bare[f]:
+			locksetFacts = append(locksetFacts, f+"@-")
+		default:
+			locksetFacts = append(locksetFacts, f+"@mixed")
+		}
 	}
 	seenPS := map[string]bool{}
 	for _, a := range w.out {
-		if live[a.field] && strings.HasPrefix(a.where, "start") {
-			e := fmt.Sprintf("%s:%s:%s@%s", a.where, a.field, a.kind, a.held)
+		if live[a.field] && len(lockset[a.field]) == 0 && strings.HasPrefix(a.where, "start") {
+			holding := "locked"
+			if a.held == "-" {
+				holding = "-"
+			}
+			e := fmt.Sprintf("%s:%s:%s@%s", a.where, a.field, a.kind, holding)
 			if !seenPS[e] {
 				seenPS[e] = true
 				postStart = append(postStart, e)
@@ -2422,9 +2681,19 @@ func suiteEngineFacts(c *Ctx) {
 	sort.Strings(detached)
 	emit("detached-execution", join(detached))
 	emit("startup", "bootstrap="+bootstrap+" start-before-go="+join(beforeGo))
-	emit("handlers", strings.TrimSuffix(fmt.Sprintf("own=%d %s", nOwn, strings.Join(handlerFacts, " ")), " "))
+	emit("handlers", join(handlerFacts))
 	emit("locksets", join(locksetFacts))
 	emit("post-start", join(postStart))
+	if len(detached) > 0 {
+		c.Fail("C16:structural:detached-execution", "engine:handler-detached-from-request", "library helpers that run (or abandon) work on a goroutine of their own are used in the server packages: a handler started through one of them can go on after ServeHTTP has returned and released the request lock: "+clip(strings.Join(detached, " "), 2000), []string{"facts detached-execution"})
+	}
+	if len(lockSites) > 0 {
+		c.Fail("C16:structural:lock-sites", "engine:non-canonical-lock-site", "lock operations that are not <receiver>.<mutex field>.Lock() directly followed by defer <same>.Unlock() in the top-level statements of a method (a lock released before the function returns, re-taken in the middle, shared, taken in a nested block or through a method value): the request is no longer one critical section, or the lockset walk does not model the site: "+clip(strings.Join(lockSites, " "), 2000), []string{"facts lock-sites"})
+	}
+	// the extraction must see the code it is about: own handlers, and state that they write under the request lock
+	if requestLock != "" && (nOwn == 0 || nUnderRequestLock == 0) {
+		c.Fail("C16:structural:extraction-sees-the-handlers", "engine:facts-extraction-blind", fmt.Sprintf("the extraction found %d handlers registered with their own multiplexer and %d fields written after start-up whose accesses all hold the request lock: it no longer sees the code (AddHandler registrations / handler methods moved?)", nOwn, nUnderRequestLock), []string{"facts handlers", "facts locksets"})
+	}
 
 	// ---- 5. what the facts mean for the property
 	var foreignBad, otherBad []string
